@@ -2366,6 +2366,10 @@ def BHJM_cylinder_segment(
     r1 = abs(r1)
     r2 = abs(r2)
     h = abs(h)
+    # the on-surface and special-case tolerances below are absolute numbers:
+    # work in units of r2 (the field of a magnet does not depend on the length unit)
+    r1, h, observers = r1 / r2, h / r2, (observers.T / r2).T
+    r2 = r2 / r2
     z1, z2 = -h / 2, h / 2
 
     # transform dim deg->rad
